@@ -1537,7 +1537,7 @@ fn main() {
     let corpus_budget = if thorough { corpus.len() } else { 110 };
     let step = (corpus.len() / corpus_budget.max(1)).max(1);
     for (i, (label, src)) in corpus.iter().enumerate() {
-        if src.len() > 1500 {
+        if src.len() > (if thorough { 1500 } else { 500 }) {
             continue;
         }
         if thorough || i % step == 0 {
